@@ -22,6 +22,14 @@ impl MeshEdges<'_> {
         }
         let i_bound = self.boundary_loops[0].as_slice();
 
+        // One boundary loop is necessary but not sufficient: a surface with handles (a punctured
+        // torus) or with additional closed components also has a single loop. A disk is one
+        // connected piece with Euler characteristic V - E + F = 1.
+        let chi = n_vert as i64 - self.edges.len() as i64 + self.faces().len() as i64;
+        if chi != 1 || self.mesh().get_patches().len() != 1 {
+            return Err("Mesh must have the topology of a disk".into());
+        }
+
         // Get the inner vertices
         let i_inner = inner_vertices(self, i_bound)?;
 
